@@ -28,6 +28,8 @@ BODY = [
     "mov 2+x(r0), r1", "mov -x(r0), r1", "clr @2+x(r0)", "mov x(r2), 2+x(r3)", "mov #., r1", "mov ., r1", "jmp @#.+2", "mov #<.-bse>/2, r1",
     "br .+4", "br .-2", "sob r1, .", "inc bse", "mov @bse, r0", "br bse", "sob r2, bse", "jsr pc, bse", "mov #bse, bse",
     ".blkb .&3", ".repeat .&3 { .byte 5 }", ".repeat 2 { .byte 1\n .even }", ".repeat 2 { .repeat 2 { .word . } }",
+    # a local label of the surrounding region, referred to from the body
+    "br 7$", "mov #7$, r0", "sob r3, 7$", ".repeat 2 { inc 7$ }",
 ]
 NS = [0, 1, 2, 3, 4, 8]   # quick: bodies of two statements use n in 0..3 and alternate start parity / count spelling
 REG = ["first", "last", "none"]
@@ -46,7 +48,7 @@ ONCE_TREE = {"once.mac": ".once\n.byte 21\n.byte 22\n", "plain.mac": ".byte 31\n
 
 
 def bound(tier):
-    return "repeat bodies of <= %d statements (43-statement alphabet) x n in %s x 2 count spellings x 2 start parities x 3 link regimes; 258 file tuples; insert lengths %s; .end/.once families complete" % (
+    return "repeat bodies of <= %d statements (47-statement alphabet) x n in %s x 2 count spellings x 2 start parities x 3 link regimes; 258 file tuples; insert lengths %s; .end/.once families complete" % (
         3 if tier == "thorough" else 2, NS, "0..300" if tier == "thorough" else "0..40,255,256,300")
 
 
@@ -73,7 +75,7 @@ def cases(tier):
 def wrap(body_text, reg, odd, defs_first, extra_defs=""):
     pre = (".link 1000\n" if reg == "first" else "")
     pre += ("x = 4\n" + extra_defs if defs_first else "")
-    pre += "bse: nop\n" + (".byte 7\n" if odd else "")
+    pre += "bse: nop\n7$:\n" + (".byte 7\n" if odd else "")
     post = ".byte 77\n" + ("" if defs_first else "x = 4\n" + extra_defs) + (".link 1000\n" if reg == "last" else "")
     return pre + body_text + "\n" + post
 
